@@ -240,6 +240,9 @@ class VolumeDescriptorDate:
 
         if tm != 0.0:
             local = time.localtime(tm)
+            if not 1000 <= local.tm_year <= 9999:
+                # The year is recorded as four digits.
+                raise pycdlibexception.PyCdlibInvalidInput('The year of a Volume Descriptor Date must have four digits')
             self.year = local.tm_year
             self.month = local.tm_mon
             self.dayofmonth = local.tm_mday
